@@ -539,6 +539,21 @@ impl CommitPipeline {
 		self.visible_seq_num.load(Ordering::Acquire)
 	}
 
+	/// After `shutdown`: waits until no commit is under way, and lets none begin.
+	///
+	/// A commit holds a flow-control permit from before its critical section until
+	/// it has been applied and published. One that passed the shutdown check just
+	/// before the flag was set is still going to write the commit log and a
+	/// memtable; the caller (close) must not flush memtables, release commit-log
+	/// segments or close the log under it.
+	pub(crate) async fn drain(&self) {
+		if let Ok(all) = self.commit_sem.acquire_many((MAX_CONCURRENT_COMMITS - 1) as u32).await {
+			all.forget();
+		}
+		// Commits still waiting for a permit get `PipelineStall`.
+		self.commit_sem.close();
+	}
+
 	pub(crate) fn shutdown(&self) {
 		self.shutdown.store(true, Ordering::Release);
 	}
